@@ -162,6 +162,29 @@ def check_aes(ctx):
             ctx.violation('aes-statem-never-ready', 'encrypt_state_m never asserted ready within 13 cycles', rep)
             return
         ctx.count('aes-ready-cycle', 'enc%d' % first1)
+    # several units built from ONE AES object, each with its own key wire
+    pyrtl.reset_working_block()
+    A = aes.AES()
+    ins = {}
+    for nm in ('pa', 'ka', 'pb', 'kb', 'cc', 'kc'):
+        ins[nm] = Input(128, nm)
+    for nm, w in (('ea', A.encryption(ins['pa'], ins['ka'])), ('eb', A.encryption(ins['pb'], ins['kb'])),
+                  ('dc', A.decryption(ins['cc'], ins['kc']))):
+        o = Output(128, nm)
+        o <<= w
+    sim = pyrtl.FastSimulation()
+    for _ in range(ctx.n(4, 30)):
+        v = {nm: rng.getrandbits(128) for nm in ('pa', 'ka', 'pb', 'kb', 'kc')}
+        pc = rng.getrandbits(128)
+        v['cc'] = aes_encrypt(pc, v['kc'])
+        sim.step(v)
+        ctx.evaluations += 1
+        for nm, exp in (('ea', aes_encrypt(v['pa'], v['ka'])), ('eb', aes_encrypt(v['pb'], v['kb'])), ('dc', pc)):
+            if sim.inspect(nm) != exp:
+                ctx.violation('aes-shared-object:' + nm, 'three units built from one AES object with three key inputs: unit %s gives %x, '
+                              'FIPS-197 with its own key gives %x' % (nm, sim.inspect(nm), exp),
+                              {'kind': 'aes-multi', 'values': {k_: hex(x) for k_, x in v.items()}, 'unit': nm})
+                return
     # the decryption state machine, in its own block (both machines name a register 'counter')
     pyrtl.reset_working_block()
     A = aes.AES()
@@ -205,32 +228,41 @@ def check_xoroshiro(ctx):
         ro <<= rdy
         rr <<= rnd
         sim = pyrtl.FastSimulation()
-        sd = rng.getrandbits(128) | 1
         nw = (bw + 63) // 64
-        s0, s1 = sd & ((1 << 64) - 1), sd >> 64
-        sim.step({'load': 1, 'req': 0, 'seed': sd})
-        stream = xoro_ref(s0, s1, nw * 4)
-        pos = 0
-        for rq in range(3):
-            # optional idle cycles between requests (arbitrary interleaving of req pulses)
-            for _ in range(rng.choice([0, 0, 1, 3])):
-                sim.step({'load': 0, 'req': 0, 'seed': sd})
-            sim.step({'load': 0, 'req': 1, 'seed': sd})
-            n = 0
-            while not sim.inspect('rdy') and n < 4 * nw + 8:
-                sim.step({'load': 0, 'req': 0, 'seed': sd})
-                n += 1
-            words = stream[pos:pos + nw]
-            pos += nw
-            full = 0
-            for w in words:
-                full = (full << 64) | w
-            exp = full >> (64 * nw - bw)
-            ctx.evaluations += 1
-            if not sim.inspect('rdy') or sim.inspect('rand') != exp:
-                ctx.violation('xoroshiro', 'prng_xoroshiro128(bitwidth=%d) request %d: ready=%d rand=%x, xoroshiro128+ gives %x' % (
-                    bw, rq, sim.inspect('rdy'), sim.inspect('rand'), exp), {'kind': 'xoroshiro', 'bitwidth': bw, 'seed': hex(sd), 'request': rq})
-                return
+        for phase in range(2):
+          # phase 1 reseeds the running generator (sometimes with a request pulse in the very same cycle:
+          # load wins in all three generators, and ready is defined as ~load & ~req & ...)
+          sd = rng.getrandbits(128) | 1
+          s0, s1 = sd & ((1 << 64) - 1), sd >> 64
+          sim.step({'load': 1, 'req': int(phase == 1 and rng.random() < 0.5), 'seed': sd})
+          stream = xoro_ref(s0, s1, nw * 4)
+          pos = 0
+          for rq in range(3 if phase == 0 else 2):
+              # optional idle cycles between requests (arbitrary interleaving of req pulses)
+              for _ in range(rng.choice([0, 0, 1, 3]) if (rq or phase == 0) else rng.choice([1, 2, 5])):
+                  sim.step({'load': 0, 'req': 0, 'seed': sd})
+                  if rq == 0 and sim.inspect('rdy'):
+                      # nothing has been requested since the (re)seed: no number has been produced from it
+                      ctx.violation('xoroshiro-ready-after-load', 'prng_xoroshiro128(bitwidth=%d): ready is asserted in an idle cycle after a load '
+                                    'pulse although no number was requested since (phase %d)' % (bw, phase),
+                                    {'kind': 'xoroshiro', 'bitwidth': bw, 'seed': hex(sd), 'phase': phase})
+                      return
+              sim.step({'load': 0, 'req': 1, 'seed': sd})
+              n = 0
+              while not sim.inspect('rdy') and n < 4 * nw + 8:
+                  sim.step({'load': 0, 'req': 0, 'seed': sd})
+                  n += 1
+              words = stream[pos:pos + nw]
+              pos += nw
+              full = 0
+              for w in words:
+                  full = (full << 64) | w
+              exp = full >> (64 * nw - bw)
+              ctx.evaluations += 1
+              if not sim.inspect('rdy') or sim.inspect('rand') != exp:
+                  ctx.violation('xoroshiro', 'prng_xoroshiro128(bitwidth=%d) request %d: ready=%d rand=%x, xoroshiro128+ gives %x' % (
+                      bw, rq, sim.inspect('rdy'), sim.inspect('rand'), exp), {'kind': 'xoroshiro', 'bitwidth': bw, 'seed': hex(sd), 'request': rq, 'phase': phase})
+                  return
         ctx.distinct.add('xoro%d' % bw)
 
 
@@ -259,12 +291,45 @@ def check_lfsr(ctx):
                 ctx.violation('lfsr', 'prng_lfsr(bitwidth=%d) request %d: rand=%x, the 127-bit Fibonacci LFSR (taps 126/125) leaping %d steps gives %x' % (
                     bw, rq, sim.inspect('rand'), bw, exp), {'kind': 'lfsr', 'bitwidth': bw, 'seed': hex(sd), 'request': rq})
                 return
+        # arbitrary interleaving of load / req pulses, the seed input changing every cycle; a load pulse that
+        # coincides with a request reseeds (load has priority in the conditional assignment of all three generators)
+        hist = []
+        for t in range(ctx.n(16, 40)):
+            l, r, s_ = int(rng.random() < 0.3), int(rng.random() < 0.5), rng.getrandbits(127)
+            hist.append([l, r, s_])
+            sim.step({'load': l, 'req': r, 'seed': s_})
+            ctx.evaluations += 1
+            if sim.inspect('rand') != state & ((1 << bw) - 1):
+                ctx.violation('lfsr-interleaving', 'prng_lfsr(bitwidth=%d) cycle %d of a load/req interleaving: rand=%x, the LFSR (reseeded by every load '
+                              'pulse, leaping on req otherwise, else holding) gives %x' % (bw, t, sim.inspect('rand'), state & ((1 << bw) - 1)),
+                              {'kind': 'lfsr-interleaving', 'bitwidth': bw, 'cycle': t})
+                return
+            if l:
+                state = s_
+            elif r:
+                state = lfsr_ref(state, bw, width)
+        # tie: the Lean register-level model (Model/Lib/Prng.lean; theorems lfsr_history_eq_spec, lfsr_after_load) on a
+        # fresh circuit and a fresh random history from reset, cycle by cycle
+        sim2 = pyrtl.FastSimulation()
+        hist = [[int(rng.random() < 0.3), int(rng.random() < 0.5), rng.getrandbits(127)] for _ in range(ctx.n(20, 60))]
+        real = []
+        for l, r, s_ in hist:
+            sim2.step({'load': l, 'req': r, 'seed': s_})
+            real.append(sim2.inspect('rand'))
+        mod = ctx.driver.ask({'cmd': 'lfsr', 'bitwidth': bw, 'steps': hist})
+        if not mod.get('ok'):
+            raise RuntimeError('lfsr model: %s' % mod)
+        ctx.lfsr_tie_n = getattr(ctx, 'lfsr_tie_n', 0) + 1
+        if real != list(mod['trace']):
+            ctx.lfsr_tie_bad = getattr(ctx, 'lfsr_tie_bad', 0) + 1
+            c = next(i for i in range(len(real)) if real[i] != mod['trace'][i])
+            ctx.extra.setdefault('lfsr_tie_mismatch', []).append({'bitwidth': bw, 'cycle': c, 'circuit': hex(real[c]), 'model': hex(mod['trace'][c])})
         ctx.distinct.add('lfsr%d' % bw)
 
 
 def check_trivium(ctx):
     rng = ctx.rng
-    combos = [(8, 1), (64, 64), (100, 32), (128, 64), (37, 4), (1, 2), (65, 16), (256, 8)]
+    combos = [(8, 1), (64, 64), (100, 32), (128, 64), (37, 4), (1, 2), (65, 16), (256, 8), (16, 64), (3, 8), (5, 64), (1, 64), (33, 64)]
     if not ctx.quick():
         combos += [(rng.randint(1, 256), rng.choice([1, 2, 4, 8, 16, 32, 64])) for _ in range(20)]
     for bw, bpc in combos:
@@ -285,7 +350,7 @@ def check_trivium(ctx):
             sim.step({'load': 0, 'req': 0, 'seed': sd})
             n += 1
         ctx.count('trivium-init-cycles', '%d/bpc%d' % (n, bpc))   # informational: only the stream is specified
-        for rq in range(2):
+        for rq in range(3):
             for _ in range(rng.choice([0, 2])):
                 sim.step({'load': 0, 'req': 0, 'seed': sd})
             ncyc = -(-bw // bpc)
@@ -322,6 +387,8 @@ def main(ctx):
     check_xoroshiro(ctx)
     check_lfsr(ctx)
     check_trivium(ctx)
+    ctx.oblige('tie:prng_lfsr circuit = Lean Prng.lfsrStep model (random load/req/seed histories)', getattr(ctx, 'lfsr_tie_bad', 0) == 0,
+               '%d/%d histories differ' % (getattr(ctx, 'lfsr_tie_bad', 0), getattr(ctx, 'lfsr_tie_n', 0)))
     ctx.oblige('oracle:AES = FIPS-197, PRNG streams = published algorithms under load/req/ready', not ctx.violations,
                '%d evaluations' % ctx.evaluations)
     return conclude(ctx, rule='AES: FIPS-197 Appendix C vector, all-zero/all-one and random keys/blocks, single-cycle and both state '
